@@ -58,6 +58,9 @@ CHECKS = {
     "C13": ("exploration", E1 + " (ladder grid x DRT methods x lambda modes x scalings; generating circuit as oracle)",
             "Ladders of 1-4 RC/RQ elements x resistance scales x grids x TR-NNLS (2 modes x 3 lambda modes), the Loewner method, m(RQ)fit (exact fit and real fitting path; per-element areas by superposition) and four scalings: non-negativity, area = R_pol, a peak at every R*C, exact Loewner pairs without inductive branch, scaling laws. Tolerances frozen from a calibration on the unchanged tree.",
             "Ladders with >= 1.5 decades spacing only (the property's own restriction); calls that raise are counted and judged by C18.", "DESIGN.md section 4, C13"),
+    "C12": ("exploration", E1 + " (circuit families x scales x start perturbations; method x weight x limit box x fixed subset x constraint set)",
+            "Recovery with the automatic method/weight choice on six identifiable circuit families x three impedance scales x three start perturbations (18 quick / 66 thorough fits of 36 sub-fits each), and about 600 (2300) invariant fits crossing methods, weights, limit boxes (incl. limits beyond the class defaults and boxes that exclude the truth), subsets of fixed parameters and constraint sets; oracles: generating parameters up to a swap of identical blocks, vanishing pseudo chi-squared, bounds, bit-identical fixed values, constraints, parameter table and data frame equal to the returned circuit, untouched inputs, and winner = smallest pseudo chi-squared among the individually run pairs.",
+            "Declared finite grid of families and scales; a FittingError is an accepted refusal; invariant fits are capped at 200 function evaluations.", "DESIGN.md section 4, C12"),
 }
 
 NOT_YET = "check not built yet in this round (planned, see DESIGN.md section 4)"
